@@ -703,10 +703,12 @@ def snapshot(root):
             for e in it:
                 rel = os.path.relpath(e.path, root)
                 if e.is_symlink():
-                    snap[rel] = ("l", os.readlink(e.path))
+                    snap[rel] = ("l", os.readlink(e.path), os.path.isfile(e.path))   # target, resolves to a regular file?
                 elif e.is_dir():
                     snap[rel] = ("d",)
                     stack.append(e.path)
+                elif not e.is_file():
+                    snap[rel] = ("o",)          # socket, fifo, device: never opened
                 else:
                     with _o.open(e.path, "rb") as fd:
                         data = fd.read()
@@ -1033,7 +1035,7 @@ class World:
 
     # ---- run one CLI invocation in-process
     def run(self, argv, order=None, faults=None, file_bufsize=None, stdout_bufsize=None,
-            exit_flush=True, stdout_encoding="utf-8"):
+            exit_flush=True, stdout_encoding="utf-8", stdout_closed=False):
         """argv: list of str where '@/x' is replaced by <root>/x (absolute; with path_style 'rel' relative to the
         current directory, which is then the root; with 'slash' directories get a trailing '/')."""
         def tr(a):
@@ -1072,7 +1074,7 @@ class World:
         res.exit, res.exc, res.exit_flush_error = None, None, None
         saved = (sys.argv, sys.stdout, sys.stderr)
         sys.argv = ["peltool.py"] + real
-        sys.stdout, sys.stderr = out, err
+        sys.stdout, sys.stderr = (None if stdout_closed else out), err      # `>&-`: the interpreter starts with sys.stdout = None
         saved_cwd = os.getcwd()
         if self.path_style == "rel":
             os.chdir(self.root)
@@ -1093,7 +1095,7 @@ class World:
                 import traceback
                 err.write(traceback.format_exc())
             # interpreter shutdown: flush stdout, then collect leaked files
-            if not fs.ev.crashed and exit_flush:
+            if not fs.ev.crashed and exit_flush and not stdout_closed:
                 try:
                     out.flush()
                 except OSError as e:
